@@ -219,16 +219,28 @@ def _run_sym_transpose(case):
             elif what == 'aperture':
                 E = symarray(ctx, 'e', (H, W))
                 ET = E.T.copy().view(SymArray)
-                a1 = EllipticalAperture((0.8, 1.3), 1.2, 0.6, theta=0.4)
-                a2 = EllipticalAperture((1.3, 0.8), 1.2, 0.6,
-                                        theta=np.pi / 2 - 0.4)
-                m1 = a1.to_mask('center').to_image((H, W))
-                m2 = a2.to_mask('center').to_image((W, H))
-                conds.append(z3.BoolVal(bool(np.array_equal(m1, m2.T))))
-                s1, e1 = a1.do_photometry(A, error=E, method='center')
-                s2, e2 = a2.do_photometry(AT, error=ET, method='center')
-                conds += [same(s1[0], s2[0]),
-                          same(e1[0] * e1[0], e2[0] * e2[0])]
+                from photutils.aperture import (RectangularAnnulus,
+                                                RectangularAperture)
+                # shapes at rotation angles in every quadrant
+                specs = [(EllipticalAperture, (1.2, 0.6), 0.4),
+                         (EllipticalAperture, (1.3, 0.5), 2.2),
+                         (RectangularAperture, (2.2, 1.0), 0.4),
+                         (RectangularAperture, (2.2, 1.0), 2.1),
+                         (RectangularAperture, (1.8, 1.1), -0.5),
+                         (RectangularAnnulus, (0.9, 2.4, 1.3), 2.6)]
+                for cls, args, th in specs:
+                    a1 = cls((0.8, 1.3), *args, theta=th)
+                    a2 = cls((1.3, 0.8), *args, theta=np.pi / 2 - th)
+                    for method in ('center', 'exact'):
+                        m1 = a1.to_mask(method).to_image((H, W))
+                        m2 = a2.to_mask(method).to_image((W, H))
+                        ok = m1 is not None and m2 is not None and \
+                            np.allclose(m1, m2.T, rtol=0, atol=1e-12)
+                        conds.append(z3.BoolVal(bool(ok)))
+                    s1, e1 = a1.do_photometry(A, error=E, method='center')
+                    s2, e2 = a2.do_photometry(AT, error=ET, method='center')
+                    conds += [same(s1[0], s2[0]),
+                              same(e1[0] * e1[0], e2[0] * e2[0])]
             else:
                 seg = case['segm']
                 c1 = SourceCatalog(A, SegmentationImage(seg.copy()),
@@ -602,6 +614,36 @@ def replay(f):
         if p['what'] == 'com':
             c1, c2 = centroid_com(A), centroid_com(A.T.copy())
             return not np.allclose(c1, c2[::-1]), f'{c1} vs {c2}'
+        if p['what'] == 'aperture':
+            from photutils.aperture import (EllipticalAperture,
+                                            RectangularAnnulus,
+                                            RectangularAperture)
+            E = arr_from_witness(w, 'e', (H, W))
+            specs = [(EllipticalAperture, (1.2, 0.6), 0.4),
+                     (EllipticalAperture, (1.3, 0.5), 2.2),
+                     (RectangularAperture, (2.2, 1.0), 0.4),
+                     (RectangularAperture, (2.2, 1.0), 2.1),
+                     (RectangularAperture, (1.8, 1.1), -0.5),
+                     (RectangularAnnulus, (0.9, 2.4, 1.3), 2.6)]
+            for cls, args, th in specs:
+                a1 = cls((0.8, 1.3), *args, theta=th)
+                a2 = cls((1.3, 0.8), *args, theta=np.pi / 2 - th)
+                for method in ('center', 'exact'):
+                    m1 = a1.to_mask(method).to_image((H, W))
+                    m2 = a2.to_mask(method).to_image((W, H))
+                    if m1 is None or m2 is None or not np.allclose(
+                            m1, m2.T, rtol=0, atol=1e-12):
+                        return True, (f'{cls.__name__} theta={th} {method}: '
+                                      f'mask of the transposed aperture is '
+                                      f'not the transposed mask')
+                s1, e1 = a1.do_photometry(A, error=np.abs(E), method='center')
+                s2, e2 = a2.do_photometry(A.T.copy(), error=np.abs(E).T.copy(),
+                                          method='center')
+                if not (np.allclose(s1, s2, equal_nan=True)
+                        and np.allclose(e1, e2, equal_nan=True)):
+                    return True, (f'{cls.__name__} theta={th}: sums {s1} vs '
+                                  f'{s2} on the transposed image')
+            return False, 'all aperture relations hold on the witness'
         return False, 'replay of this relation needs the symbolic run'
     CH, CW = p['canvas']
     dy, dx = int(w.get('dy', 0)), int(w.get('dx', 0))
